@@ -45,8 +45,32 @@ def rule_r02d(ctx, P, r):
                     uses.append((i, 'data[] subscript', 'k'))
                 elif i.op == 'sub' and i.ops[0] in vals:
                     uses.append((i, 'parity[] subscript (index - k)', 'k+m'))
+            def contexts(v, depth=0):
+                """where the address computed from the index is actually used: [(block, (condition, truth) or None)] - a
+                conditional expression `(idx < k) ? &data[idx] : &parity[idx - k]` computes both addresses and uses one"""
+                out = []
+                for u in f.insts():
+                    ops_ = u.ops if u.op != 'phi' else [x for x, _ in u.incoming]
+                    if v not in ops_ or depth > 4:
+                        continue
+                    if u.op == 'select' and v in u.ops[1:]:
+                        out.append((u.bb, (u.ops[0], u.ops[1] == v)))
+                    elif u.op in ('getelementptr', 'bitcast', 'sext', 'zext', 'trunc') and u.res:
+                        out += contexts(u.res, depth + 1)
+                    elif u.op in ('load', 'store', 'call', 'phi'):
+                        out.append((u.bb, None))
+                return out
+            expanded = []
             for i, how, ub in uses:
-                F = Facts(P, f, i.bb)
+                ctxs = contexts(i.res) if i.res else []
+                if ctxs and all(cd is not None for _, cd in ctxs):
+                    expanded += [(i, how, ub, bb_, cd) for bb_, cd in ctxs]
+                else:
+                    expanded.append((i, how, ub, i.bb, None))
+            for i, how, ub, at_bb, extra in expanded:
+                F = Facts(P, f, at_bb)
+                if extra is not None:
+                    F._add(extra[0], extra[1])
                 e = F.norm(c.res)
                 lo = F.lower_bound(e)
                 ups = F.upper_bound_sym(e)
@@ -77,9 +101,20 @@ def rule_r02d(ctx, P, r):
     found = False
     from ..cfg import natural_loops
     headers = set(natural_loops(f).keys())
+    from ..poly import PolyCtx as _PC02, Poly as Poly02
+    pc02 = _PC02(P, f, C)
     for i in f.insts():
         if i.op == 'icmp' and i.pred in ('sgt', 'sge', 'slt', 'sle') and i.bb not in headers:
             a, b = C.val(strip_int_casts(f, i.ops[0])), C.val(strip_int_casts(f, i.ops[1]))
+            # the count of missing fragments may be a counter or the distance a write cursor has moved (pointer difference)
+            def is_count(o):
+                pv = pc02.val(o)
+                ats = list(pv.atoms())
+                return len(ats) == 1 and pv == Poly02.atom(ats[0]) and ats[0].startswith('%') and f.defs.get(ats[0]) is not None and f.defs[ats[0]].op == 'phi'
+            if a != 'arg1' and b == 'arg1' and not a.startswith('phi') and is_count(i.ops[0]):
+                a = 'phi' + a
+            elif b != 'arg1' and a == 'arg1' and not b.startswith('phi') and is_count(i.ops[1]):
+                b = 'phi' + b
             if 'arg1' in (a, b) and (a.startswith('phi') or b.startswith('phi')):
                 # num_missing ? m
                 num_first = b == 'arg1'
